@@ -2,6 +2,7 @@ package rules
 
 import (
 	"go/token"
+	"go/types"
 	"sort"
 	"strings"
 
@@ -305,4 +306,61 @@ func c19WalkSkipDir(c *Ctx, p *core.Prog, scope []string, fired map[string]bool)
 		}
 	}
 	return n
+}
+
+// c19FormatterEntryReset: the CLI's SQLFormatter is an object with mutable layout state (the indentation level). The
+// same options and the same file must give the same text whether the formatter is fresh or has formatted (or failed to
+// format) another file before: Format assigns every such field before anything reads it.
+func c19FormatterEntryReset(c *Ctx, p *core.Prog) {
+	r := c.R
+	r.Rule("formatter-entry-reset", "(*SQLFormatter).Format in cmd/gosqlx/cmd assigns every scalar field that its methods change (indentation level, …) before the first read on every path: the output for a file does not depend on the files formatted before it")
+	rel := "cmd/gosqlx/cmd"
+	pk := p.Pkg(rel)
+	if pk == nil {
+		r.Undecide("formatter-entry-reset", "anchor", "-", "package "+rel+" not found")
+		return
+	}
+	obj := pk.Types.Scope().Lookup("SQLFormatter")
+	entry := p.Method(rel, "SQLFormatter", "Format")
+	if obj == nil || entry == nil {
+		r.Undecide("formatter-entry-reset", "anchor", "-", "SQLFormatter / its Format method not found")
+		return
+	}
+	T := obj.Type().(*types.Named)
+	st := core.StructOf(T)
+	fns := p.SrcFuncs(rel)
+	fa := collectFieldAccess(fns, T)
+	eng := newResetEngine(p)
+	eng.assignMode = true
+	eng.objType = T
+	exp := newExposure(p, eng, T, fns, func(f *ssa.Function) bool { return core.InPkgs(f, rel) })
+	n := 0
+	for i := 0; i < st.NumFields(); i++ {
+		f := st.Field(i)
+		if _, isBasic := f.Type().Underlying().(*types.Basic); !isBasic {
+			continue
+		}
+		mutable := false
+		for _, fn := range fns {
+			if len(fa.writes[fn][f.Name()]) == 0 || strings.HasPrefix(outer(fn).Name(), "New") {
+				continue
+			}
+			// the entry's own assignment does not make the field mutable state
+			if fn == entry {
+				continue
+			}
+			mutable = true
+		}
+		if !mutable {
+			continue
+		}
+		n++
+		key := "SQLFormatter.Format|" + f.Name()
+		if bad := exp.firstExposed(entry, f.Name()); bad == nil {
+			r.OK("formatter-entry-reset", key, p.FnPos(entry), "assigned before the first possible read")
+		} else {
+			r.Violate("formatter-entry-reset", key, p.Pos(bad.Pos()), "field "+f.Name()+" may be read ("+exp.witness(entry, f.Name())+") before Format assigns it: what an earlier Format call on this formatter left there (an indentation level that an error path did not unwind, say) shapes this file's output")
+		}
+	}
+	r.Floor("formatter-entry-reset", n, 1, "mutable scalar fields of SQLFormatter")
 }
